@@ -26,6 +26,17 @@ pub fn tol_for(w32: bool) -> f64 {
     }
 }
 
+/// The margin (gap between best and second-best candidate, relative to the input scale; for the
+/// methods on squares relative to scale^2) above which the ORDER of merges cannot depend on rounding:
+/// every table value is the result of at most ~3 rounded operations per merge along a chain of at most
+/// n merges (relative error <= 3n eps); for the methods on squares the values grow up to n * scale^2.
+/// 64x that bound.
+pub fn safe_margin(w32: bool, m: Method, n: usize) -> f64 {
+    let eps = if w32 { f32::EPSILON as f64 } else { f64::EPSILON };
+    let nn = n.max(2) as f64;
+    64.0 * 8.0 * eps * if on_squares(m) { nn * nn } else { nn }
+}
+
 pub fn scale_of(vals: &[f64]) -> f64 {
     vals.iter().fold(0.0f64, |a, &b| a.max(b.abs())).max(f64::MIN_POSITIVE)
 }
